@@ -120,7 +120,7 @@ def r3_1(ctx, rc):
             for g in prog.resolve_call(call, f):
                 if isinstance(g, Func):
                     continue
-                k, _ = eff.classify(g, call)
+                k, _ = eff.classify(g, call, f)
                 if k not in (DESTROY, UNKNOWN):
                     continue
                 n += 1
